@@ -108,6 +108,9 @@ fn pool() -> Vec<Value> {
         Value::String(String::new()), Value::String(" ".into()), Value::String("\t\n ".into()), Value::String("\u{3000}\u{a0}".into()),
         Value::String(" é ".into()), Value::String("1".into()), Value::String("true".into()), Value::String(" Ab ".into()),
         Value::String("2015-07-30T03:26:13Z".into()), Value::String("i1".into()),
+        // context-sensitive case mapping (final sigma), a title-case digraph, and numerals with more fraction digits than a Decimal holds (rounded, not refused)
+        Value::String("\u{39f}\u{394}\u{39f}\u{3a3}".into()), Value::String("\u{1c5}x\u{130}".into()),
+        Value::String("0.33333333333333333333333333333333".into()), Value::String("1.00000000000000000000000000001".into()), Value::String("79228162514264337593543950336".into()),
         dt(0), dt(1438226773), dt(8210266876799), dt(-8334601228800), dt(1451606400), dt(1546214400), dt(1483228799),
         dur(0), dur(1), dur(-1), dur(i64::MAX / 1000), dur(-(i64::MAX / 1000)), dur(604800),
         // sub-second instants and spans (micro / nano), the same second apart; decimals that differ only in scale or in the sign of zero
@@ -274,6 +277,27 @@ fn family_compose() {
                     }
                 }
                 let _ = bn;
+            }
+        }
+    }
+    // unary(unary(a)) on the whole pool: stacked operators are two applications, never a cancellation or a shortcut
+    {
+        let full = pool();
+        let empty = BTreeMap::new();
+        for (un, uf) in &uns {
+            for (un2, uf2) in &uns {
+                if !matches!(*un, "neg" | "not" | "some" | "none" | "int" | "float" | "dec" | "uppercase" | "lowercase" | "trim" | "round" | "floor" | "fract") { continue; }
+                if !matches!(*un2, "neg" | "not" | "some" | "none" | "int" | "float" | "dec" | "uppercase" | "lowercase" | "trim" | "round" | "floor" | "fract" | "duration" | "second") { continue; }
+                for a in &full {
+                    let inner = uf2(Expr::value(a.clone()));
+                    // the outer node's actual operand is the inner node's value when it has one, else the error passes through and the operand is `a`
+                    let env = Env { facts: &facts, symbols: &empty, fns: &[] };
+                    let mut st = St::default();
+                    let mid = sem(&inner, &env, &mut st);
+                    let operand = match &mid { Ok(v) => v.clone(), Err(_) => a.clone() };
+                    check_expr(&mut rep, un, &uf(inner), &facts, &[&operand]);
+                    let _ = un2;
+                }
             }
         }
     }
